@@ -18,11 +18,9 @@ package config
 //@ func StringToX509PublicKeyAlgo$1(f, t, data)
 //@   requires f != nil
 //@   requires kindOf(f) == 24 ==> typeof(data) == string
-//@   let u0 = old(calls(strconv.ParseUint))
-//@   ensures [other-conversions-pass-through] (kindOf(f) != 24 || t != algoType()) ==> (result0 == data && result1 == nil && calls(strconv.ParseUint) == u0)
+//@   ensures [other-conversions-pass-through] (kindOf(f) != 24 || t != algoType()) ==> (result0 == data && result1 == nil)
 //@   ensures [algorithm-by-name-in-any-case] (kindOf(f) == 24 && t == algoType() && (lowerOf(data.(string)) in dom(publicKeyAlgoName))) ==>
-//@     (result1 == nil && result0 == iface(publicKeyAlgoName[lowerOf(data.(string))]) && calls(strconv.ParseUint) == u0)
+//@     (result1 == nil && result0 == iface(publicKeyAlgoName[lowerOf(data.(string))]))
 //@   ensures [algorithm-by-number] (kindOf(f) == 24 && t == algoType() && !(lowerOf(data.(string)) in dom(publicKeyAlgoName))) ==>
-//@     (calls(strconv.ParseUint) == u0 + 1 && arg(strconv.ParseUint, u0, 0) == data.(string) && arg(strconv.ParseUint, u0, 1) == 10 &&
-//@      result1 == ret(strconv.ParseUint, u0, 1) && (result1 != nil ==> result0 == nil) &&
-//@      (result1 == nil ==> (typeof(result0) == x509.PublicKeyAlgorithm && pl(result0) == ret(strconv.ParseUint, u0, 0))))
+//@     ((result1 == nil <==> atoiOK(data.(string), 0)) && (result1 != nil ==> result0 == nil) &&
+//@      (result1 == nil ==> (typeof(result0) == x509.PublicKeyAlgorithm && pl(result0) == atoi(data.(string)))))
